@@ -124,6 +124,17 @@ func suiteC12(r *Run) {
 				}
 			}
 			names = append(names, "/"+s.name, "/"+s.name+"/", s.name)
+			// near misses that differ from a registered name only in letter case (names are byte strings, not case-folded)
+			for _, m := range append(append([]string{}, s.unary...), s.streams...) {
+				switch rng.Intn(4) {
+				case 0:
+					names = append(names, "/"+s.name+"/"+strings.ToLower(m), "/"+s.name+"/"+strings.ToUpper(m))
+				case 1:
+					names = append(names, "/"+strings.ToUpper(s.name)+"/"+m, "/"+strings.ToLower(s.name)+"/"+m)
+				case 2:
+					names = append(names, "/"+s.name+"/"+swapCaseAt(m, rng.Intn(len(m))))
+				}
+			}
 			// near misses that only an unescaping step could turn into a registered name
 			for _, m := range append(append([]string{}, s.unary...), s.streams...) {
 				switch rng.Intn(6) {
@@ -419,4 +430,22 @@ func cleanName(name string) string {
 		}
 	}
 	return strings.Join(out, "/")
+}
+
+
+// swapCaseAt flips the case of the letter at (or after) position i; the string is returned unchanged if it has no letter there.
+func swapCaseAt(s string, i int) string {
+	b := []byte(s)
+	for k := 0; k < len(b); k++ {
+		j := (i + k) % len(b)
+		switch {
+		case b[j] >= 'a' && b[j] <= 'z':
+			b[j] -= 32
+			return string(b)
+		case b[j] >= 'A' && b[j] <= 'Z':
+			b[j] += 32
+			return string(b)
+		}
+	}
+	return s
 }
